@@ -73,13 +73,25 @@ func c16bases(thorough bool) []c16base {
 		{src: "var sum = total(all) + 1\n", ordered: true},
 		{src: "func init() {\n\tall = append(all, &Sq{s: 1})\n}\n", ordered: true},
 	}}
+	// function-local declarations named like package-level ones, and the same method name on two types and as a function
+	b4 := c16base{"locals", []c16item{
+		{src: "type Meter struct {\n\tn int\n}\n"},
+		{src: "type Gauge struct {\n\tn int\n}\n"},
+		{src: "func label() string {\n\treturn \"pkg\"\n}\n"},
+		{src: "func (m *Meter) Describe() string {\n\ttype label struct {\n\t\ttext string\n\t}\n\tl := &label{text: \"meter\"}\n\treturn l.text\n}\n"},
+		{src: "func (g *Gauge) Describe() string {\n\treturn \"gauge-\" + label()\n}\n"},
+		{src: "func Describe() string {\n\ttype Gauge struct {\n\t\ts string\n\t}\n\tx := &Gauge{s: \"local\"}\n\treturn x.s + label()\n}\n"},
+		{src: "func Main() {\n\tfmt.Println(m.Describe(), g.Describe(), Describe(), g.n)\n}\n", fmt: true},
+		{src: "var m = &Meter{n: 1}\n", ordered: true},
+		{src: "var g = &Gauge{n: 2}\n", ordered: true},
+	}}
 	if !thorough {
 		// quick: 5 hoistable + 3..4 ordered items per package
 		b1.items = append(append([]c16item{}, b1.items[0], b1.items[1], b1.items[2], b1.items[3], c16item{src: "func mk(n int) *A {\n\treturn &A{b: &B{v: n * 2}, n: n}\n}\n"}, c16item{src: "func Main() {\n\tfmt.Println(s0, a0.b.Get(), K, a0.Sum())\n}\n", fmt: true}), b1.items[7], b1.items[8], b1.items[9], c16item{src: "func init() {\n\ts0 += 100\n}\n", ordered: true})
 		// (all items of the functions package are kept in quick: a parameter named like another top-level function needs them)
 		b3.items = append(append([]c16item{}, b3.items[1], b3.items[3], b3.items[0], b3.items[5], c16item{src: "func Main() {\n\tfmt.Println(total(all), len(all), sum)\n}\n", fmt: true}), c16item{src: "var all = []Shape{&Sq{s: 2}, &Sq{s: 3}}\n", ordered: true}, b3.items[8], c16item{src: "func init() {\n\tall = append(all, &Sq{s: 1})\n}\n", ordered: true})
 	}
-	return []c16base{b1, b2, b3}
+	return []c16base{b1, b2, b3, b4}
 }
 
 // an arrangement: order = permutation of item indexes; files[i] = file of the i-th item in that order
@@ -88,9 +100,11 @@ type c16arr struct {
 	Order    []int `json:"order"`
 	Files    []int `json:"files"`
 	Imported bool  `json:"imported,omitempty"` // loaded as a dependency of a root package instead of as the root
+	Names    int   `json:"names,omitempty"`    // which triple of file names (each sorts like 0 < 1 < 2)
 }
 
-var c16fileNames = []string{"a_first.go", "m_mid.go", "z_last.go"}
+// none of these names ends in _test.go, so every one of them is part of the package
+var c16fileNames = [][]string{{"a_first.go", "m_mid.go", "z_last.go"}, {"contest.go", "latest.go", "test.go"}, {"1.go", "Test.go", "tests.go"}}
 
 func c16render(b c16base, pkg string, a c16arr) map[string]string {
 	parts := map[int][]c16item{}
@@ -129,7 +143,7 @@ func c16render(b c16base, pkg string, a c16arr) map[string]string {
 		for _, it := range its {
 			sb.WriteString(it.src + "\n")
 		}
-		out[pkg+"/"+c16fileNames[f]] = sb.String()
+		out[pkg+"/"+c16fileNames[a.Names%len(c16fileNames)][f]] = sb.String()
 	}
 	return out
 }
@@ -225,7 +239,7 @@ func c16run(r *report.Run) {
 		multi = 300
 	}
 	stride := 0
-	r.Rule(fmt.Sprintf("[%d evenly spread arrangements per package for the file dimension] three base packages (struct types referring to later types with methods declared before them; mutually recursive functions, iota constants and chained initialisers; an interface with two implementations): all permutations of the hoistable items x all interleavings of the ordered items (constants, initialisers, init keep their relative order) in one file, and for %d arrangements per package all assignments of its items to three files with the ordered items assigned monotonically; non-trivial = arrangement that differs from the canonical one", multi, multi))
+	r.Rule(fmt.Sprintf("[%d evenly spread arrangements per package for the file dimension] four base packages (struct types referring to later types with methods declared before them; mutually recursive functions, iota constants and chained initialisers; an interface with two implementations; function-local types named like package-level functions and types inside same-named methods of two types and a function of that name): all permutations of the hoistable items x all interleavings of the ordered items (constants, initialisers, init keep their relative order) in one file, and for %d arrangements per package all assignments of its items to three files with the ordered items assigned monotonically, the files named by three schemes in turn (among them test.go, latest.go, contest.go, Test.go, tests.go: names that merely resemble a test file); non-trivial = arrangement that differs from the canonical one", multi, multi))
 	r.Assume("the canonical arrangement (types, methods, functions, constants, variables, init in one file) is the reference; the Go toolchain compiles and runs it and a spread of other arrangements", "ordered items are assigned to files monotonically, so their relative order after the loader's sorted-name concatenation is the source order (the one constraint the property states)")
 	cache := oracle.OpenCache("c16")
 	defer cache.Save()
@@ -264,7 +278,7 @@ func c16run(r *report.Run) {
 			if r.Expired() {
 				return
 			}
-			a := c16arr{Base: bi, Order: orders[k], Imported: k%16 == 7}
+			a := c16arr{Base: bi, Order: orders[k], Imported: k%16 == 7, Names: k % 3}
 			got := c16runArr(b, a)
 			r.Eval(1)
 			r.Nontrivial(fmt.Sprint(bi, orders[k]))
@@ -274,7 +288,7 @@ func c16run(r *report.Run) {
 			if k%stride == stride/2 {
 				n := 0
 				c16assignments(b, orders[k], func(files []int) {
-					a2 := c16arr{Base: bi, Order: orders[k], Files: files, Imported: n%2 == 1}
+					a2 := c16arr{Base: bi, Order: orders[k], Files: files, Imported: n%2 == 1, Names: n / 2 % 3}
 					g2 := c16runArr(b, a2)
 					n++
 					if g2 != want {
